@@ -1000,7 +1000,7 @@ def reach_calls(F, f, want, depth=2):
     the arguments f passes), owner is the function whose body contains `call`."""
     by_id = getattr(F, "_by_id", {})
     for c in f.walk():
-        if c["k"] not in ("CallExpr", "CXXMemberCallExpr", "CXXConstructExpr", "CXXOperatorCallExpr"):
+        if c["k"] not in ("CallExpr", "CXXMemberCallExpr", "CXXConstructExpr", "CXXTemporaryObjectExpr", "CXXOperatorCallExpr"):
             continue
         if want(c):
             yield c, c, (lambda e: e), f
@@ -1008,7 +1008,7 @@ def reach_calls(F, f, want, depth=2):
         g = by_id.get(c.get("calleeId"))
         if g is None or g is f or depth <= 0 or g.cfg is None:
             continue
-        args = call_args(c) if c["k"] != "CXXConstructExpr" else kids(c)
+        args = call_args(c) if c["k"] not in ("CXXConstructExpr", "CXXTemporaryObjectExpr") else kids(c)
         if c["k"] == "CXXOperatorCallExpr" and c.get("op") == "()":
             args = kids(c)[2:]               # lambda call: callee object first
         binding = {p["declId"]: strip(a) for p, a in zip(g.params, args)}
